@@ -291,8 +291,12 @@ impl<B: StarkField> ToElements<B> for SimInputs<B> {
 // AIR
 // ================================================================================================
 
+/// Unlike the dummy verifier of winterfell's own Lagrange test, this one checks that the
+/// "proof" (log2 of the trace length) is the expected one, as a real GKR verifier would.
 #[derive(Debug, Clone, Default)]
-pub struct SimGkrVerifier;
+pub struct SimGkrVerifier {
+    pub expected_log_len: usize,
+}
 
 #[derive(Debug)]
 pub struct SimGkrError;
@@ -316,7 +320,7 @@ impl GkrVerifier for SimGkrVerifier {
         E: FieldElement,
         Hasher: ElementHasher<BaseField = E::BaseField>,
     {
-        if gkr_proof > 32 {
+        if gkr_proof != self.expected_log_len {
             return Err(SimGkrError);
         }
         let mut rand_elements = Vec::with_capacity(gkr_proof);
@@ -457,7 +461,7 @@ impl<B: SimField> Air for SimAir<B> {
     }
 
     fn get_auxiliary_proof_verifier<E: FieldElement<BaseField = B>>(&self) -> SimGkrVerifier {
-        SimGkrVerifier
+        SimGkrVerifier { expected_log_len: self.context.trace_len().ilog2() as usize }
     }
 }
 
